@@ -705,10 +705,11 @@ impl UnknownTracer {
         if !self.options.allow_null_fields {
             fail!("{}", NullFieldMessage(&self.name));
         }
+        // Null fields are always nullable (as for fields that only ever saw nulls)
         Ok(Field {
             name: self.name.to_owned(),
             data_type: DataType::Null,
-            nullable: self.nullable,
+            nullable: true,
             metadata: HashMap::new(),
         })
     }
